@@ -58,3 +58,6 @@ func (p *Proposal) VerifCompressedData() []byte { return p.compressedData }
 func (p *Proposal) VerifPrecedence() int { return p.precedence() }
 
 func (p *Proposal) VerifCode() byte { return byte(p.code) }
+
+// VerifHeaderTitle is the title field writeCompressed puts in the transfer header.
+func VerifHeaderTitle(title string) string { return headerTitle(title, 255-6-2) }
